@@ -133,6 +133,7 @@ func (x *Exec) callCommon(fr *Frame, st *State, ins ssa.Instruction, cc *ssa.Cal
 	} else {
 		x.safety(fr, "nilfunc", cc.Value.Name(), st, not(eq(fv, intLit(0))), pos)
 	}
+	x.note("A11: a call through a function value (%s in %s) is taken to change only what its arguments reach; variables captured by the closure are not tracked", cc.Value.Name(), shortFn(fr.fn))
 	sig := cc.Signature()
 	dynArgs := x.args(fr, st, cc)
 	x.havocCall(fr, st, ins, "dynamic call through "+cc.Value.Name(), sig, dynArgs, cc.Args, res)
